@@ -370,6 +370,11 @@ M('C06', 'twin: conj via unary minus written as multiplication', CH,
         return res""", None, 'silent')
 
 # ---------------------------------------------------------------- C03
+M('C03', 'E_shift written into the caller\'s operator (original defect)', KRY,
+  """                shifted = ShiftNpcLinearOperator(self.H.orig_operator, self.E_shift)
+                self.H = OrthogonalNpcLinearOperator(shifted, [v.copy() for v in self.H.ortho_vecs])""",
+  """                self.H.orig_operator = ShiftNpcLinearOperator(self.H.orig_operator, self.E_shift)""",
+  'OWN-attr-alias')
 M('C03', 'make_valid asarray (original defect)', CH,
   'charges = np.array(charges, dtype=QTYPE)  # copy: never write into the argument',
   'charges = np.asarray(charges, dtype=QTYPE)', 'OWN-write')
@@ -657,6 +662,14 @@ M('C01', 'binary merge swaps operands (seed)', NPC,
   'data.append(func(bdata[j], np.zeros_like(bdata[j])))', 'SIDES-binary')
 M('C01', 'add_leg inserts label at wrong axis', NPC, '        labels.insert(axis, label)\n',
   '        labels.insert(0, label)\n', 'AXIS-insert')
+M('C07', 'get_theta n=1 ignores the requested form (original defect)', MPS,
+  "return self.get_B(i, (formL, formR), True, cutoff, '0')", "return self.get_B(i, (1.0, 1.0), True, cutoff, '0')",
+  'PARAM-dropped')
+M('C07', 'segment boundary composed in the wrong order (seed a)', MPS,
+  "new_VR = npc.tensordot(VR_segment, old_VR, axes=['vR', 'vL'])", "new_VR = npc.tensordot(old_VR, VR_segment, axes=['vR', 'vL'])",
+  'SEGMENT-order')
+M('C07', 'Schmidt values gathered with destination indices (seed b)', MPS,
+  "SR = SR[inverse_permutation(perm)]", "SR = SR[perm]", 'PERM-direction')
 M('C07', 'set_svd_theta records U as B form', MPS,
   "self.set_B(i, U.itranspose(self._B_labels), form='A')",
   "self.set_B(i, U.itranspose(self._B_labels), form='B')", None)
